@@ -5,6 +5,7 @@ import (
 	"math/big"
 	"math/rand"
 	"sort"
+	"strconv"
 	"strings"
 
 	"github.com/llir/llvm/ir"
@@ -157,6 +158,10 @@ func genC20(ctx *fw.Ctx) []fw.Case {
 	for _, s := range baseSources() {
 		s := s
 		cases = append(cases, fw.Case{ID: "perm/" + s.ID, Run: func(r *fw.Rec) { c20Perm(r, s) }})
+	}
+	for b := 0; b < ctx.Pick(24, 400); b++ {
+		b := b
+		cases = append(cases, fw.Case{ID: fmt.Sprintf("entity-order/%d", b), Run: func(r *fw.Rec) { c20EntityOrder(r, b) }})
 	}
 	return cases
 }
@@ -623,4 +628,251 @@ func allPerms(n int) [][]int {
 	}
 	rec(0)
 	return out
+}
+
+// hostileNames are names whose natural order differs from the order of their
+// escaped spellings, of their integer readings, or of their byte strings.
+var hostileNames = []string{"-5", "-1", "-3x", "+1", "+10", "007", "7a", "a b", "a.b", "a~b", "a\\b", "a\"b", "llvm.\xc3\xa9", "llvm.z", "llvm.Z",
+	"9223372036854775808", "18446744073709551616", "1e5", "0x10", "x10", "x9", "x09", "x 9", "x-9", "a10b2", "a10b10", "a9b10", "\x7f", "\x01", " ", "_", "$", "."}
+
+var numberLikeNames = []string{"-5", "-1", "-10", "-3x", "-0", "+0", "+1", "+10", "+5", "1e1", "0x5", "05", "005", "5_", " 5", "5 ", "-05"}
+
+func quoteBytes(name string) string {
+	var sb strings.Builder
+	for i := 0; i < len(name); i++ {
+		c := name[i]
+		if c < 0x20 || c >= 0x7f || c == '"' || c == '\\' {
+			fmt.Fprintf(&sb, "\\%02X", c)
+		} else {
+			sb.WriteByte(c)
+		}
+	}
+	return sb.String()
+}
+
+func mdNameSpelling(name string) string {
+	var sb strings.Builder
+	for i := 0; i < len(name); i++ {
+		c := name[i]
+		plain := c >= 'a' && c <= 'z' || c >= 'A' && c <= 'Z' || c == '.' || c == '_' || c == '$' || c == '-' || (i > 0 && c >= '0' && c <= '9')
+		if plain {
+			sb.WriteByte(c)
+		} else {
+			fmt.Fprintf(&sb, "\\%02X", c)
+		}
+	}
+	return sb.String()
+}
+
+// printedEntityNames extracts, in printed order, the decoded names of the type
+// definitions, comdats, named metadata and the numbers of the attribute groups
+// and metadata definitions of a printed module.
+func printedEntityNames(y string) map[string][]string {
+	out := map[string][]string{}
+	decode := func(tok string) string {
+		if len(tok) >= 2 && tok[0] == '"' && tok[len(tok)-1] == '"' {
+			tok = tok[1 : len(tok)-1]
+		}
+		return string(export.Unescape(tok))
+	}
+	for _, line := range strings.Split(y, "\n") {
+		switch {
+		case strings.HasPrefix(line, "%") && strings.Contains(line, " = type "):
+			tok := line[1:strings.Index(line, " = type ")]
+			nm := decode(tok)
+			if isAllDigitsC20(nm) && strings.HasPrefix(tok, "\"") {
+				// the library's name of a type whose quoted name is all digits keeps the
+				// quotes (that is how %"42" differs from the type ID %42), and that
+				// name is what is sorted
+				nm = `"` + nm + `"`
+			}
+			out["type"] = append(out["type"], nm)
+		case strings.HasPrefix(line, "$") && strings.Contains(line, " = comdat "):
+			out["comdat"] = append(out["comdat"], decode(line[1:strings.Index(line, " = comdat ")]))
+		case strings.HasPrefix(line, "attributes #"):
+			out["attrgroup"] = append(out["attrgroup"], line[len("attributes #"):strings.Index(line, " = ")])
+		case strings.HasPrefix(line, "!") && strings.Contains(line, " = "):
+			head := line[1:strings.Index(line, " = ")]
+			if isAllDigitsC20(head) {
+				out["metadata"] = append(out["metadata"], head)
+			} else {
+				out["named-metadata"] = append(out["named-metadata"], decode(head))
+			}
+		}
+	}
+	return out
+}
+
+func isAllDigitsC20(s string) bool {
+	if s == "" {
+		return false
+	}
+	for i := 0; i < len(s); i++ {
+		if s[i] < '0' || s[i] > '9' {
+			return false
+		}
+	}
+	return true
+}
+
+// c20EntityOrder builds a module whose type, comdat and named-metadata names
+// come from the hostile pool (plus PRNG names) and whose attribute groups,
+// metadata definitions and type IDs are sparse numbers, writes the definitions
+// in PRNG order, and requires (a) the printed order of every kind to be the
+// natural order of the decoded names (numeric order for numbers) and (b) the
+// same printed module for every textual order tried.
+func c20EntityOrder(r *fw.Rec, blk int) {
+	rng := r.Ctx().Rand(fmt.Sprintf("entity-order/%d", blk))
+	pick := func(n int) []string {
+		seen := map[string]bool{}
+		var out []string
+		for len(out) < n {
+			var nm string
+			switch rng.Intn(3) {
+			case 0:
+				nm = hostileNames[rng.Intn(len(hostileNames))]
+			case 1:
+				nm = randNatString(rng)
+			default:
+				nm = hostileNames[rng.Intn(len(hostileNames))] + randNatString(rng)
+			}
+			if nm == "" || seen[nm] {
+				continue
+			}
+			seen[nm] = true
+			out = append(out, nm)
+		}
+		return out
+	}
+	var defs []string
+	want := map[string][]string{}
+	typeNames := pick(3 + rng.Intn(6))
+	if rng.Intn(3) == 0 {
+		// names that read as signed or padded integers, next to type IDs
+		typeNames = nil
+		for _, i := range rng.Perm(len(numberLikeNames))[:3+rng.Intn(5)] {
+			typeNames = append(typeNames, numberLikeNames[i])
+		}
+		for _, id := range rng.Perm(12)[:2+rng.Intn(3)] {
+			defs = append(defs, fmt.Sprintf("%%%d = type { i%d }\n", id, 1+rng.Intn(64)))
+			want["type"] = append(want["type"], fmt.Sprint(id))
+		}
+	}
+	for _, nm := range typeNames {
+		defs = append(defs, fmt.Sprintf("%%\"%s\" = type { i%d }\n", quoteBytes(nm), 1+rng.Intn(64)))
+		if isAllDigitsC20(nm) {
+			nm = `"` + nm + `"`
+		}
+		want["type"] = append(want["type"], nm)
+	}
+	for _, nm := range pick(2 + rng.Intn(5)) {
+		defs = append(defs, fmt.Sprintf("$\"%s\" = comdat any\n", quoteBytes(nm)))
+		want["comdat"] = append(want["comdat"], nm)
+	}
+	nums := rng.Perm(40)
+	var mdIDs []int
+	for i := 0; i < 2+rng.Intn(4); i++ {
+		id := nums[i] * (1 + rng.Intn(3))
+		dup := false
+		for _, o := range mdIDs {
+			dup = dup || o == id
+		}
+		if dup {
+			continue
+		}
+		mdIDs = append(mdIDs, id)
+		defs = append(defs, fmt.Sprintf("!%d = !{!\"n%d\"}\n", id, id))
+		want["metadata"] = append(want["metadata"], fmt.Sprint(id))
+	}
+	for _, nm := range pick(2 + rng.Intn(5)) {
+		defs = append(defs, fmt.Sprintf("!%s = !{!%d}\n", mdNameSpelling(nm), mdIDs[rng.Intn(len(mdIDs))]))
+		want["named-metadata"] = append(want["named-metadata"], nm)
+	}
+	var agIDs []int
+	for i := 0; i < 2+rng.Intn(4); i++ {
+		id := nums[10+i] * (1 + rng.Intn(3))
+		dup := false
+		for _, o := range agIDs {
+			dup = dup || o == id
+		}
+		if dup {
+			continue
+		}
+		agIDs = append(agIDs, id)
+		defs = append(defs, fmt.Sprintf("attributes #%d = { \"k%d\" }\n", id, id))
+		defs = append(defs, fmt.Sprintf("declare void @f%d() #%d\n", id, id))
+		want["attrgroup"] = append(want["attrgroup"], fmt.Sprint(id))
+	}
+	var first string
+	for trial := 0; trial < 4; trial++ {
+		perm := rng.Perm(len(defs))
+		var sb strings.Builder
+		for _, i := range perm {
+			sb.WriteString(defs[i])
+		}
+		x := sb.String()
+		m, perr, pmsg := parseGuard("entity-order", x)
+		r.Eval(1)
+		if pmsg != "" || perr != nil {
+			what := pmsg
+			if perr != nil {
+				what = perr.Error()
+			}
+			r.Violate(fw.Violation{Key: "entity-order-rejected/" + classify(firstLine(what)), Input: x, What: "a module of independent definitions with unusual names is not accepted: " + firstLine(what)})
+			return
+		}
+		y, pp := printGuard(m)
+		if pp != "" {
+			r.Violate(fw.Violation{Key: "entity-order-print-panic", Input: x, What: firstLine(pp)})
+			return
+		}
+		got := printedEntityNames(y)
+		for kind, names := range want {
+			g := got[kind]
+			if len(g) != len(names) {
+				r.Violate(fw.Violation{Key: "entity-order-lost/" + kind, Input: x, What: fmt.Sprintf("%d %s definitions written, %d printed (%q)", len(names), kind, len(g), g), Observed: y})
+				return
+			}
+			for i := 0; i+1 < len(g); i++ {
+				bad := false
+				if kind == "metadata" || kind == "attrgroup" {
+					a, _ := strconv.Atoi(g[i])
+					b, _ := strconv.Atoi(g[i+1])
+					bad = a >= b
+				} else {
+					bad = !export.NatLess(g[i], g[i+1])
+				}
+				if bad {
+					r.Violate(fw.Violation{Key: "entity-order/" + kind, Input: x, What: fmt.Sprintf("%s definitions are printed in the order %q: %q is not before %q in natural order", kind, g, g[i], g[i+1]), Observed: y})
+					return
+				}
+			}
+			in := map[string]bool{}
+			for _, nm := range names {
+				in[nm] = true
+			}
+			for _, nm := range g {
+				if !in[nm] {
+					r.Violate(fw.Violation{Key: "entity-order-name-changed/" + kind, Input: x, What: fmt.Sprintf("%s %q is printed but was not written (written: %q)", kind, nm, names), Observed: y})
+					return
+				}
+			}
+		}
+		// declarations keep their textual order by design
+		var kept []string
+		for _, l := range strings.Split(y, "\n") {
+			if !strings.HasPrefix(l, "declare ") {
+				kept = append(kept, l)
+			}
+		}
+		y = strings.Join(kept, "\n")
+		if trial == 0 {
+			first = y
+		} else if y != first {
+			r.Violate(fw.Violation{Key: "entity-order-depends-on-text-order", Input: x, What: "the same definitions in another textual order print differently: " + firstDiffLines(first, y), Expected: first, Observed: y})
+			return
+		}
+		r.Nontrivial("entity-order:" + x)
+	}
+	r.Tally("entity-order", "modules")
 }
